@@ -33,6 +33,7 @@ type Shared struct {
 	sizes          types.Sizes
 	buildMu        sync.Mutex
 	built          map[*ssa.Package]bool
+	builtFast      sync.Map
 	runtimeErrStr  types.Type
 }
 
@@ -75,13 +76,16 @@ func Load(dir string, patterns []string, overlay map[string][]byte, tags string,
 }
 
 func (sh *Shared) buildPkg(p *ssa.Package) {
-	sh.buildMu.Lock()
-	done := sh.built[p]
-	sh.built[p] = true
-	sh.buildMu.Unlock()
-	if !done {
-		p.Build()
+	if _, ok := sh.builtFast.Load(p); ok {
+		return
 	}
+	sh.buildMu.Lock()
+	defer sh.buildMu.Unlock()
+	if !sh.built[p] {
+		p.Build()
+		sh.built[p] = true
+	}
+	sh.builtFast.Store(p, true)
 }
 
 // Harnesses returns the functions named ZZH_* in the initial packages, sorted by name.
